@@ -154,6 +154,10 @@ pub enum F {
     EdnsOpts,
     /// protocol field fixed to 3 (DNSKEY)
     Proto3,
+    /// NSEC3 hash algorithm octet: 1 (SHA-1, the only one the decoder accepts) three times in four
+    N3Alg,
+    /// NSEC3 flags octet: 0 or 1 (opt-out) three times in four, else any
+    N3Flags,
 }
 
 pub struct TypeInfo {
@@ -185,8 +189,8 @@ pub const TYPES: &[TypeInfo] = &[
     TypeInfo { code: 46, name: "RRSIG", schema: &[U16, U8, U8, U32, U32, U32, U16, NameNC, Rest] },
     TypeInfo { code: 47, name: "NSEC", schema: &[NameNC, Bitmap] },
     TypeInfo { code: 48, name: "DNSKEY", schema: &[U16, Proto3, U8, Rest] },
-    TypeInfo { code: 50, name: "NSEC3", schema: &[U8, U8, U16, L8Bytes, L8Bytes, Bitmap] },
-    TypeInfo { code: 51, name: "NSEC3PARAM", schema: &[U8, U8, U16, L8Bytes] },
+    TypeInfo { code: 50, name: "NSEC3", schema: &[N3Alg, N3Flags, U16, L8Bytes, L8Bytes, Bitmap] },
+    TypeInfo { code: 51, name: "NSEC3PARAM", schema: &[N3Alg, N3Flags, U16, L8Bytes] },
     TypeInfo { code: 52, name: "TLSA", schema: &[U8, U8, U8, Rest] },
     TypeInfo { code: 53, name: "SMIMEA", schema: &[U8, U8, U8, Rest] },
     TypeInfo { code: 59, name: "CDS", schema: &[U16, U8, U8, Rest] },
@@ -408,6 +412,8 @@ impl WireBuilder {
                 }
                 U8 => self.buf.push(if rng.chance(1, 3) { *rng.pick(&[0u8, 1, 2, 3, 5, 8, 13, 15, 255]) } else { rng.u8() }),
                 Proto3 => self.buf.push(3),
+                N3Alg => self.buf.push(if rng.chance(3, 4) { 1 } else { rng.u8() }),
+                N3Flags => self.buf.push(if rng.chance(3, 4) { rng.below(2) as u8 } else { rng.u8() }),
                 U16 => {
                     let v = if rng.chance(1, 3) { *rng.pick(&[0u16, 1, 255, 256, 257, 65535]) } else { rng.u16() };
                     self.buf.extend_from_slice(&v.to_be_bytes())
